@@ -4,8 +4,8 @@
  * Checked against a reference written here on plain integers / C floats:
  *   - the object bytes afterwards are the named-order bytes of the native result ("stored value"),
  *   - the value returned by the operator is the value the same operator returns on the native type.
- * Operand restrictions (native behaviour undefined otherwise): d != 0 for / and %, shift count < BITS, no signed
- * overflow for 32/64-bit signed + - * ++ -- and no MIN / -1. */
+ * Operand restrictions (native behaviour undefined otherwise): d != 0 for / and %, shift count < BITS, no overflow of the
+ * signed promoted type (int32/int64 + - * ++ --, and uint16*uint16 which is multiplied as int) and no MIN / -1. */
 #include "harness.h"
 #define CAT2(a, b) a##b
 #define CAT(a, b) CAT2(a, b)
@@ -40,7 +40,38 @@ enum { OP_CTOR = 0, OP_ASSIGN, OP_STORE_LOAD, OP_RAW, OP_ADD, OP_SUB, OP_MUL, OP
 #define MASK ((BITS == 64) ? ~0ULL : ((1ULL << (BITS % 64)) - 1))
 #define SIGNBIT (1ULL << (BITS - 1))
 
-static int64_t sx(uint64_t x) { return (x & SIGNBIT) ? (int64_t)(x | ~MASK) : (int64_t)x; } /* value of the BITS-bit two's complement pattern */
+/* native types of this cell: NT exposed type, UNT its unsigned twin, PT/UPT the type the arithmetic is done in after
+ * integral promotion (int for both 16-bit types), PSIGNED whether that type is signed */
+#if !FLT
+#if BITS == 16
+#if SIGNED
+typedef int16_t NT;
+#else
+typedef uint16_t NT;
+#endif
+typedef uint16_t UNT; typedef int32_t PT; typedef uint32_t UPT;
+#define PSIGNED 1
+#define PMIN 0x80000000u
+#elif BITS == 32
+#if SIGNED
+typedef int32_t NT; typedef int32_t PT;
+#else
+typedef uint32_t NT; typedef uint32_t PT;
+#endif
+typedef uint32_t UNT; typedef uint32_t UPT;
+#define PSIGNED SIGNED
+#define PMIN 0x80000000u
+#else
+#if SIGNED
+typedef int64_t NT; typedef int64_t PT;
+#else
+typedef uint64_t NT; typedef uint64_t PT;
+#endif
+typedef uint64_t UNT; typedef uint64_t UPT;
+#define PSIGNED SIGNED
+#define PMIN 0x8000000000000000ull
+#endif
+#endif
 
 #if FLT
 #if BITS == 32
@@ -85,60 +116,46 @@ void harness(void) {
     default: ASSUME(0);
   }
 #else
-  const int64_t sv = sx(v), sd = sx(d);
-  int ovf = 0; /* native signed overflow (undefined): excluded */
+  /* native operands: x, y have the exposed type NT; arithmetic happens in the promoted type (int for the 16-bit types),
+   * written here on the unsigned twin UPT so that the reference itself never executes undefined signed overflow */
+  const NT x = (NT)v, y = (NT)d;
+  const PT px = (PT)x, py = (PT)y;            /* integral promotion (sign- or zero-extends) */
+  const UPT ux = (UPT)px, uy = (UPT)py;
+  PT t;
+  int ovf = 0; /* the native operation would overflow a signed (promoted) type: undefined, excluded */
+#define RES(e) ((uint64_t)(UNT)(NT)(e)) /* convert back to NT (modular), as bit pattern */
   switch (op) {
     case OP_CTOR: stored = returned = v; break;
     case OP_ASSIGN: case OP_STORE_LOAD: case OP_COPY: stored = returned = d; break;
     case OP_RAW: raw_op = 1; break;
-    case OP_ADD: stored = (v + d) & MASK; ovf = (sv >= 0) == (sd >= 0) && (sx(stored) >= 0) != (sv >= 0); returned = stored; break;
-    case OP_SUB: stored = (v - d) & MASK; ovf = (sv >= 0) != (sd >= 0) && (sx(stored) >= 0) != (sv >= 0); returned = stored; break;
-    case OP_MUL: {
-      stored = (v * d) & MASK;
-#if SIGNED && BITS == 64
-      int64_t t; ovf = __builtin_mul_overflow(sv, sd, &t);
-#elif SIGNED
-      ovf = (sv * sd != sx(stored));
-#endif
-      returned = stored; break; }
+    case OP_ADD: stored = returned = RES(ux + uy); if (PSIGNED) ovf = __builtin_add_overflow(px, py, &t); break;
+    case OP_SUB: stored = returned = RES(ux - uy); if (PSIGNED) ovf = __builtin_sub_overflow(px, py, &t); break;
+    case OP_MUL: stored = returned = RES(ux * uy); if (PSIGNED) ovf = __builtin_mul_overflow(px, py, &t); break;
     case OP_DIV:
-      ASSUME(d != 0);
-#if SIGNED
-      ovf = (v == SIGNBIT && d == MASK); ASSUME(!(BITS == 64 && ovf));
-      stored = (uint64_t)(sv / sd) & MASK;
-#else
-      stored = v / d;
-#endif
+      ASSUME(y != 0);
+      if (PSIGNED) { ovf = (ux == PMIN && py == -1); ASSUME(!ovf); stored = RES(px / py); }
+      else stored = RES(ux / uy);
       returned = stored; break;
     case OP_MOD:
-      ASSUME(d != 0);
-#if SIGNED
-      ovf = (v == SIGNBIT && d == MASK); ASSUME(!(BITS == 64 && ovf));
-      stored = (uint64_t)(sv % sd) & MASK;
-#else
-      stored = v % d;
-#endif
+      ASSUME(y != 0);
+      if (PSIGNED) { ovf = (ux == PMIN && py == -1); ASSUME(!ovf); stored = RES(px % py); }
+      else stored = RES(ux % uy);
       returned = stored; break;
-    case OP_AND: stored = returned = v & d; break;
-    case OP_OR: stored = returned = v | d; break;
-    case OP_XOR: stored = returned = v ^ d; break;
-    case OP_SHL: ASSUME(d < BITS); stored = returned = (v << d) & MASK; break;
+    case OP_AND: stored = returned = RES(ux & uy); break;
+    case OP_OR: stored = returned = RES(ux | uy); break;
+    case OP_XOR: stored = returned = RES(ux ^ uy); break;
+    case OP_SHL: ASSUME(d < BITS); stored = returned = RES(ux << d); break;
     case OP_SHR: ASSUME(d < BITS);
-#if SIGNED
-      stored = ((sv >= 0) ? (v >> d) : ~((~(uint64_t)sv) >> d)) & MASK; /* arithmetic shift */
-#else
-      stored = v >> d;
-#endif
+      if (PSIGNED && px < 0) stored = RES(~((~ux) >> d)); /* arithmetic shift of a negative value */
+      else stored = RES(ux >> d);
       returned = stored; break;
-    case OP_PREINC: stored = returned = (v + 1) & MASK; ovf = (v == (MASK >> 1)); break;
-    case OP_POSTINC: stored = (v + 1) & MASK; returned = v; ovf = (v == (MASK >> 1)); break;
-    case OP_PREDEC: stored = returned = (v - 1) & MASK; ovf = (v == SIGNBIT); break;
-    case OP_POSTDEC: stored = (v - 1) & MASK; returned = v; ovf = (v == SIGNBIT); break;
+    case OP_PREINC: stored = returned = RES(ux + 1); if (PSIGNED) ovf = __builtin_add_overflow(px, (PT)1, &t); break;
+    case OP_POSTINC: stored = RES(ux + 1); returned = v; if (PSIGNED) ovf = __builtin_add_overflow(px, (PT)1, &t); break;
+    case OP_PREDEC: stored = returned = RES(ux - 1); if (PSIGNED) ovf = __builtin_sub_overflow(px, (PT)1, &t); break;
+    case OP_POSTDEC: stored = RES(ux - 1); returned = v; if (PSIGNED) ovf = __builtin_sub_overflow(px, (PT)1, &t); break;
     default: ASSUME(0);
   }
-#if SIGNED && BITS >= 32
-  ASSUME(!ovf); /* int16_t arithmetic is done in int and converted back: no undefined overflow there */
-#endif
+  ASSUME(!ovf);
 #endif
   uint8_t raw[9];
   for (int i = 0; i < 9; i++) raw[i] = 0xC3;
